@@ -115,11 +115,28 @@ def stable_hash(s: str) -> int:
 
 
 # --------------------------------------------------------------------------- quiet
+_QUIET_CALLS = [0]
+
+
+class _Sink:
+    """a stand-in for sys.stdout that only knows write() and flush()"""
+
+    def write(self, text):
+        return len(text)
+
+    def flush(self):
+        pass
+
+
 @contextlib.contextmanager
 def quiet():
     """Swallow evo's stdout/stderr chatter while a workload runs."""
     out, err = sys.stdout, sys.stderr
-    sys.stdout, sys.stderr = io.StringIO(), io.StringIO()
+    _QUIET_CALLS[0] += 1
+    # every third time the replacement is a minimal writer (write / flush only), as logging
+    # frameworks and GUI consoles install them
+    sys.stdout = _Sink() if _QUIET_CALLS[0] % 3 == 0 else io.StringIO()
+    sys.stderr = io.StringIO()
     try:
         yield
     finally:
